@@ -1,6 +1,7 @@
 SPECIFICATION Spec
 CONSTANTS
   MaxSteps = 7
+  Variant = "asWritten"
   Codes = {101, 103, 200, 404}
-INVARIANTS CodeOK LastWins
+INVARIANTS FreshAfterReset CodeOK LastWins
 CHECK_DEADLOCK FALSE
